@@ -335,6 +335,56 @@ def _c10_fixed():
 PLANS["C10"]["fixed"] = _c10_fixed()
 
 
+L0 = {"cfg": {"min": 200000, "max": 600000, "life": 0}}
+LEXP = {"cfg": {"min": 200000, "max": 600000, "life": 700}}
+LAUTO = {"cfg": {"min": 200000, "max": 600000, "life": -1}}
+NOFWD = {"cfg": {"min": 200000, "max": 600000, "life": 1800, "fwd": False}}
+TWO = {"cfg": {"min": 200000, "max": 600000, "life": 1800, "ifaces": 2}}
+FASTNF = {"cfg": {"min": 3000, "max": 4000, "life": -1, "fwd": False}}
+
+
+def rand_c04(rng):
+    steps, t = [], 0
+    for i in range(rng.randrange(5, 40)):
+        t += rng.choice([0, 0, 1, 250, 499, 500, 1000, 2999, 3000, 3001])
+        steps.append({"op": "adv", "to": t})
+        k = rng.choice(["rs", "rs", "flip", "flip", "scrape", "api", "radiff", "rasame"])
+        ifi = rng.choice(["vf0", "vf0", "vf1"])
+        if k == "rs":
+            steps.append({"op": "rs", "src": rng.choice(["fe80::a1", "unspec", "2001:db8::a2"]), "ifi": ifi})
+        elif k == "flip":
+            steps.append({"op": "flip", "toggle": True, "ifi": ifi})
+        elif k in ("scrape", "api"):
+            steps.append({"op": k})
+        else:
+            steps.append({"op": "msg", "kind": "ra", "variant": "diffhl" if k == "radiff" else "same", "src": "fe80::dd", "ifi": ifi})
+    steps.append({"op": "adv", "to": t + 7000})
+    if rng.random() < 0.5:
+        steps.append({"op": "cancel", "term": rng.random() < 0.6})
+    return steps
+
+
+PLANS["C04"] = dict(
+    mc=[("c04", dict(Hosts='{"h1"}', Kinds='{"radiff", "rasame"}', MaxIn=2, MaxT=7, MaxFlips=2, MaxQueries=2, MaxHolds=0),
+         dict(MaxIn=3, MaxT=8, MaxFlips=2, MaxQueries=2)),
+        ("c04zero", dict(Hosts='{"h1"}', Kinds='{"radiff"}', CfgLife=0, MaxIn=2, MaxT=5, MaxFlips=2, MaxQueries=1), dict(MaxIn=3))],
+    env=[("a", dict(Srcs='{"h1", "unspec"}', Kinds='{"radiff", "rasame", "scrape", "api"}', MaxFlips=2, Terms="{TRUE, FALSE}",
+                    MaxEv=4, MaxT=4), dict(MaxEv=5, MaxT=5), [DEF, L0, LEXP, LAUTO, NOFWD, FASTNF]),
+         ("gate", dict(Srcs='{"h1"}', Kinds="{}", HoldDsts='{"fwdgate"}', MaxFlips=2, MaxEv=5, MaxT=2), dict(MaxEv=6), [DEF, LEXP])],
+    cap_quick=1800, cap_thorough=14000,
+    ifis=("vf0", "vf1"),
+    nrand=60, nrand_thorough=1500, rand_variants=[TWO, dict(cfg=dict(TWO["cfg"], life=0)), dict(cfg=dict(TWO["cfg"], life=700, fwd=False))],
+    rand=rand_c04,
+    nontrivial=lambda s: any(x["op"] == "flip" for x in s["steps"]) and any(x["op"] in ("rs", "msg", "scrape", "api", "cancel") for x in s["steps"]),
+    rule="scenarios = TLC-enumerated histories over {RS from a host / from ::, consistent and inconsistent foreign RA, metrics "
+         "scrape, debug-API request, forwarding flip, stop(term|reload)} and histories with the forwarding read held at a gate while "
+         "the flag flips, x configurations {default, lifetime 0, explicit, auto, forwarding initially off, fast periodic}; random "
+         "histories on two interfaces sharing one Metrics and one API handler; non-trivial = at least one flip and one RA-generating event",
+    assumptions=["the forwarding flag is the harness State stub; every read is logged with the value returned",
+                 "'all other content unchanged' is checked as equality of a digest of the RA without its router lifetime"],
+)
+
+
 def make(pid):
     def f(p, tier, replay):
         return adv_check(p, tier, replay, PLANS[p])
